@@ -516,8 +516,13 @@ class Ctx(object):
                 for ev in menu:
                     nxt.append(hist + (ev,))
             nxt.sort(key=lambda h: case_to_text(h))
-            if max_states and nstates > max_states:
+            # safety net: a tree under test whose module-level state differs from run to run (a cache that stores time
+            # stamps) makes every history a new state; the search is then cut off and the part reported as capped
+            # (exhaustive=False in the evidence) instead of running for hours
+            cap = max_states or int(os.environ.get("VERIF_MAX_STATES", "20000" if self.quick else "150000"))
+            if nstates > cap or len(nxt) > 4 * cap:
                 capped = True
+                print("[%s] %s: search cut off at %d states / a frontier of %d histories (capped, not exhaustive)" % (self.pid, name, nstates, len(nxt)), flush=True)
                 break
             frontier = nxt
             level += 1
